@@ -96,6 +96,27 @@ def units():
     U.fn("seq3_begin", ensures={"begin_is_index_zero": "RET.current_index == 0 && RET.dims.dims.x == $0->dims.x && RET.dims.dims.y == $0->dims.y && RET.dims.dims.z == $0->dims.z"})
     U.fn("seq3_dimensions", ensures={"dimensions_returns_extent": "RET.x == $0->dims.x && RET.y == $0->dims.y && RET.z == $0->dims.z"})
     U.fn("seq3_ctor", assigns=["*$0"], noalias=True, ensures={"ctor_stores_extent": "$0->dims.x == $1->x && $0->dims.y == $1->y && $0->dims.z == $1->z"})
+    # ---------------- ActualArray3D::get / set: which cell they touch (BOUNDED: extents of at most 4 per axis)
+    D = "$0->dims"
+    N3 = "((unsigned long)%s.x * (unsigned long)%s.y * (unsigned long)%s.z)" % (D, D, D)
+    ah = """
+  __CPROVER_assume(o_@0.dims.x >= 1 && o_@0.dims.x <= 4 && o_@0.dims.y >= 1 && o_@0.dims.y <= 4 && o_@0.dims.z >= 1 && o_@0.dims.z <= 4);
+  o_@0.value = (float *)verif_malloc((unsigned long)o_@0.dims.x * o_@0.dims.y * o_@0.dims.z * sizeof(float));
+  verif_gi = nondet_unsigned_long();
+  if (verif_gi < (unsigned long)o_@0.dims.x * o_@0.dims.y * o_@0.dims.z) g_cell = o_@0.value[verif_gi];
+"""
+    U.helpers = getattr(U, "helpers", "") + "\nfloat g_cell;   /* ghost: the cell at flat position verif_gi on entry */\n"
+    AREQ = ["%s.x >= 1 && %s.x <= 4 && %s.y >= 1 && %s.y <= 4 && %s.z >= 1 && %s.z <= 4" % ((D,) * 6), "__CPROVER_rw_ok($0->value, %s * sizeof(float))" % N3,
+            "IMP(verif_gi < %s, FEQ($0->value[verif_gi], g_cell))" % N3]
+    CL = lambda c: "($1->%s < 0 ? 0 : ($1->%s > %s.%s - 1 ? %s.%s - 1 : $1->%s))" % (c, c, D, c, D, c, c)
+    IDXC = "((unsigned long)%s + (unsigned long)%s.x * ((unsigned long)%s + (unsigned long)%s.y * (unsigned long)%s))" % (CL("x"), D, CL("y"), D, CL("z"))
+    IDXW = "((unsigned long)$1->x + (unsigned long)%s.x * ((unsigned long)$1->y + (unsigned long)%s.y * (unsigned long)$1->z))" % (D, D)
+    U.fn("actual_get", pre_call=ah, requires=AREQ, assigns=[], solver=["--sat-solver", "cadical"], timeout=600, ensures={
+        "get_returns_the_cell_at_the_clamped_coordinate": "FEQ(RET, $0->value[%s])" % IDXC})
+    U.fn("actual_set", pre_call=ah, requires=AREQ + ["$1->x >= 0 && $1->x < %s.x && $1->y >= 0 && $1->y < %s.y && $1->z >= 0 && $1->z < %s.z" % (D, D, D), "!__CPROVER_same_object($2, $0->value)"],
+         assigns=["__CPROVER_object_whole($0->value)"], solver=["--sat-solver", "cadical"], timeout=600, ensures={
+        "set_writes_exactly_the_cell_of_that_coordinate": "FEQ($0->value[%s], *$2)" % IDXW,
+        "set_leaves_every_other_cell_alone": "IMP(verif_gi < %s && verif_gi != %s, FEQ($0->value[verif_gi], g_cell))" % (N3, IDXW)})
     return [U, adaptors_unit(), foreach_unit()]
 
 
@@ -181,9 +202,9 @@ def adaptors_unit():
 META = dict(
     level="proof",
     level_text="flatten/reshape (2-D, 3-D) and longIndex/coordsOf are proved mutually inverse on coordinates inside the extent and on [0,total), flatten < total, for EVERY extent (unbounded, z3 over the integers on VCs generated from the extracted code), together with the obligation that every intermediate value and every conversion fits its machine type (so machine arithmetic equals mathematical arithmetic: 'computed in 64 bits without overflow' is itself proved, and e.g. a 32-bit temporary for a row number is refuted). Iterator operations (++, ==, jump_to, current, begin, dimensions) have bit-precise CBMC contracts. The shifted, sub-box, accessor and multi-slice adaptors (unit c17_adaptors) are proved, against a recording interface stub of the underlying Array3D, to ask exactly one underlying array for exactly the cell their definition names (shift wrapped into the extent; offset by the box origin; same cell with value conversion; cell (x,y,0) of the slice selected by the clamped z) and to return its value. array3D::for_each (range, size and box forms; unit c17_foreach) is checked, BOUNDED to extents of at most 3 per axis, against a probe functor: every coordinate of the region is visited exactly once, in flattened order (x fastest), and nothing outside it.",
-    level_note="Trusted: clang AST, cxx2c, mathvc evaluator, z3; CBMC for the iterator contracts. NOT yet under contract: for_each loops / iteration order, ActualArray3D get/set memory access, the shifted / sub-box / accessor / multi-slice adaptors (virtual dispatch through shared_ptr) and getValueRange.",
+    level_note="Trusted: clang AST, cxx2c, mathvc evaluator, z3; CBMC for the iterator contracts. ActualArray3D::get/set are checked BOUNDED (extents of at most 4 per axis): get reads the cell at the clamped coordinate, set writes exactly the cell of its coordinate and no other (so get returns the value last set there). NOT under contract: getValueRange, Array3DRepeater, numElements of the adaptors.",
     assumptions=["extent with total < 2^64 (multidim_index_sequence), positive int extents (array3D)"],
-    bounded=["for_each (unit c17_foreach): region extents of at most 3 per axis, coordinates in [-3,3], unwind 5"],
-    unverified=["ActualArray3D::get/set cell contents", "Array3DRepeater (mirrored repetition; not named by the property)", "adaptor numElements", "getValueRange"],
+    bounded=["ActualArray3D get/set: extents of at most 4 per axis", "for_each (unit c17_foreach): region extents of at most 3 per axis, coordinates in [-3,3], unwind 5"],
+    unverified=["Array3DRepeater (mirrored repetition; not named by the property)", "adaptor numElements", "getValueRange"],
     trusted_extra=["lib/mathvc.py symbolic evaluator", "z3 5.1.0"],
 )
